@@ -2570,6 +2570,16 @@ syscall:
 #endif
 		}
 	}
+#if DISPATCH_VERIF
+	{
+		// verification hook: report the result of the read/write system call
+		// (number of bytes, or -errno) and the length that was requested
+		int _dv_errno = errno;
+		DISPATCH_VERIF_NOTE(DV_NOTE_USER, op, processed == -1 ?
+				-(long)_dv_errno : (long)processed, len);
+		errno = _dv_errno;
+	}
+#endif
 	// Encountered an error on the file descriptor
 	if (processed == -1) {
 		err = errno;
